@@ -27,7 +27,8 @@ class Snapshot(object):
                     for w in world.rows('WorkflowExecution')}
         self.tasks = {t['id']: dict(state=t['state'], name=t['name'],
                                     wf=t['workflow_execution_id'],
-                                    processed=t['processed'])
+                                    processed=t['processed'],
+                                    join=bool(t['unique_key']))
                       for t in world.rows('TaskExecution')}
         self.actions = {a['id']: dict(state=a['state'],
                                       accepted=a['accepted'],
@@ -51,6 +52,7 @@ class Explorer(object):
         self.paused_since = {}     # wf id -> set of task ids at pause time
         self.stopped = {}          # wf id -> (state, task ids at stop time)
         self.trace = []
+        self.taint = None          # a known mechanism already seen on path
 
     # -- choices ------------------------------------------------------------
     def outcome(self, task_name):
@@ -139,6 +141,8 @@ class Explorer(object):
             d = dict(info)
             d.update(kw)
             d['signature'] = '%s:%s' % (sig, s)
+            if self.taint and s != self.taint:
+                d['signature'] += ':after-' + self.taint
             check(False, label, d)
         for wid, w in new.wfs.items():
             o = old.wfs.get(wid)
@@ -167,6 +171,15 @@ class Explorer(object):
                         wf.get('state') in TERMINAL_WF:
                     viol('task-created-in-finished-workflow',
                          'created-after-finish', task=t['name'])
+                continue
+            if t['join'] and t['state'] == 'WAITING' and \
+                    o['state'] in COMPLETED + ('RUNNING',) and \
+                    operator != 'rerun_workflow':
+                # Task.defer() resets an already started / finished join
+                # when one more inbound branch routes to it
+                self.taint = 'join-reset'
+                viol('started-join-reset-to-waiting', 'join-reset',
+                     task=t['name'], move='%s->WAITING' % o['state'])
                 continue
             if o['state'] == 'SUCCESS' and t['state'] != 'SUCCESS':
                 viol('succeeded-task-changed-state', 'task-left-success',
